@@ -205,7 +205,7 @@ macro_rules! body_and_trailers {
 }
 
 /// read up to `$k` body chunks on the whole stream `$s` before it is split; evaluates to true when the body already ended
-/// there (the trailers are then asked for on the whole stream and nothing is left for the halves)
+/// there (the stream is then split between the end of the body and the trailers, which are asked for on the receive half)
 macro_rules! chunks_before_split {
     ($s:expr, $o:expr, $k:expr, $bail:expr) => {{
         let mut ended = false;
@@ -225,12 +225,6 @@ macro_rules! chunks_before_split {
                     $o.borrow_mut().body_end = Some(Err(err_info(&e)));
                     $bail
                 }
-            }
-        }
-        if ended {
-            match $s.recv_trailers().await {
-                Ok(t) => $o.borrow_mut().trailers = Some(Ok(t.is_some())),
-                Err(e) => $o.borrow_mut().trailers = Some(Err(err_info(&e))),
             }
         }
         ended
@@ -264,10 +258,14 @@ async fn server_app(net: Net, o: Shared<Obs>, sp: Spawner, split: Option<u8>) {
                         let ended = chunks_before_split!(s, o2, k, {
                             std::future::pending::<()>().await;
                         });
+                        let (tx, mut rx) = s.split();
                         if ended {
+                            match rx.recv_trailers().await {
+                                Ok(t) => o2.borrow_mut().trailers = Some(Ok(t.is_some())),
+                                Err(e) => o2.borrow_mut().trailers = Some(Err(err_info(&e))),
+                            }
                             std::future::pending::<()>().await;
                         }
-                        let (tx, mut rx) = s.split();
                         body_and_trailers!(rx, o2, {
                             std::future::pending::<()>().await;
                         });
@@ -326,10 +324,14 @@ async fn client_app(net: Net, o: Shared<Obs>, sp: Spawner, split: Option<u8>) {
         let ended = chunks_before_split!(s, o, k, {
             std::future::pending::<()>().await;
         });
+        let (tx, mut rx) = s.split();
         if ended {
+            match rx.recv_trailers().await {
+                Ok(t) => o.borrow_mut().trailers = Some(Ok(t.is_some())),
+                Err(e) => o.borrow_mut().trailers = Some(Err(err_info(&e))),
+            }
             std::future::pending::<()>().await;
         }
-        let (tx, mut rx) = s.split();
         body_and_trailers!(rx, o, {
             std::future::pending::<()>().await;
         });
@@ -595,6 +597,9 @@ pub fn run_case(server: bool, seq: &[Sym], ending: Ending, style: Style, sched: 
     if split.map(|k| k >= 1).unwrap_or(false) && !obs.body.is_empty() {
         ctx.class("split_after_part_of_the_body");
     }
+    if split.map(|k| k >= 1).unwrap_or(false) && matches!(obs.trailers, Some(Ok(true))) {
+        ctx.class("trailers_read_on_a_half_split_late");
+    }
     if invalid || (reaches_body && seq.len() >= 2) {
         ctx.nontrivial(&(server, seq.to_vec(), ending, format!("{style:?}"), split));
     }
@@ -632,7 +637,7 @@ fn exhaustive(ctx: &mut Ctx, shard: usize, nshards: usize) -> Verdict {
                 for ending in [Ending::Fin, Ending::Reset(0x10c), Ending::Open] {
                     for (k, style) in [Style::Eager, Style::Tiny, Style::Random].into_iter().enumerate() {
                         let sched = if style == Style::Random { prf_cells((code as u64) << 8 | (n as u64) << 4 | k as u64, 80) } else { Vec::new() };
-                        for split in [None, Some(0u8), Some(1)] {
+                        for split in [None, Some(0u8), Some(1), Some(3)] {
                             run_case(server, &seq, ending, style, &sched, split, ctx)?;
                             count += 1;
                         }
@@ -644,7 +649,7 @@ fn exhaustive(ctx: &mut Ctx, shard: usize, nshards: usize) -> Verdict {
     let _ = count;
     if shard == 0 {
         let per = |k: usize| (0..=maxn).map(|n| k.pow(n as u32) as u64).sum::<u64>();
-        ctx.subspace("all sequences up to the length bound x 3 endings x 3 schedule styles x 2 roles x whole stream / split() before the body / split() after one body chunk", (per(11) + per(10)) * 27);
+        ctx.subspace("all sequences up to the length bound x 3 endings x 3 schedule styles x 2 roles x whole stream / split() before the body / after one / after three body chunks (or at the end of the body, before the trailers)", (per(11) + per(10)) * 36);
     }
     let _ = Tier::Quick;
     Ok(())
